@@ -57,8 +57,7 @@ for tag, (cpp, n, sg) in INT_TYPES.items():
             C(name, 'glm::bitfieldExtract(vec<%d,%s>)' % (L, cpp), tier_of(tag, L), unwind=65, requires=[('glsl_domain', dom)],
               ensures=[('glsl_value_comp%d' % i, 'out[%d] == (%s)spec_bitfieldExtract(%s, %d, %d, offset, bits)' % (i, U, xs[i], n, sg)) for i in range(L)])
         name = 'glm_bitfieldInsert_' + sfx
-        if n < 32:
-            continue  # does not compile for 8/16-bit T (Base & ~Mask promotes to int)
+        # 8/16-bit element types compile since fix 545f5fe (the body works on the unsigned type); under contract since seed C05_3
         if L == 0:
             d.shim(name, cpp, [(cpp, 'x'), (cpp, 'y'), ('int32_t', 'offset'), ('int32_t', 'bits')], 'return glm::bitfieldInsert(x, y, offset, bits);')
             C(name, 'glm::bitfieldInsert<%s>' % cpp, tier_of(tag, L), unwind=65, requires=[('glsl_domain', dom)],
@@ -142,4 +141,4 @@ P.level_note = 'trusted: clang-14 lowering, ll2c (T-checked), CBMC bit-vector se
 P.technique = 'CBMC code contracts (DFCC enforce) on mechanically extracted C, SAT/SMT bit-precise'
 P.design_ref = 'DESIGN.md section 6 C05'
 P.assumptions = ['the shim table (function x type x shape) is the instantiation set covered; other instantiations are not verified']
-P.not_covered = ['bitfieldReverse and bitfieldInsert for 8/16-bit element types: these instantiations do not compile (operator& of vec<L,T> with int), so GLM does not accept those widths', 'func_integer_simd.inl (covered by C03)', 'gtc/integer.inl log2 etc. (C18)']
+P.not_covered = ['bitfieldReverse for 8/16-bit element types: these instantiations do not compile (operator& of vec<L,T> with int), so GLM does not accept those widths', 'func_integer_simd.inl (covered by C03)', 'gtc/integer.inl log2 etc. (C18)']
